@@ -9,6 +9,7 @@ and the safety obligations (`footprint`, `deref`, `field-guard`, `divzero`,
 `extern-requires`, ...) are stated against the mathematical values (O_math of
 DESIGN 2.4).  O_wrap = O_math /\ nooverflow.
 """
+import os
 import z3, itertools, copy, sys
 from . import cast as cast_mod
 
@@ -981,6 +982,9 @@ class Executor:
             lo, hi = CT(ity).rng()
             self.axioms.append(z3.And(v.t >= lo, v.t <= hi))
             st.ghost[ck] = v
+            st.ghost[('loadrec', len([k_ for k_ in st.ghost if isinstance(
+                k_, tuple) and k_ and k_[0] == 'loadrec']))] = (
+                    r, p.off, sz, v.t)
             inv = st.ghost.get(('elem_inv', r.uid))
             if inv is not None:
                 # a contract established a property of every element of this
@@ -1056,6 +1060,11 @@ class Executor:
             if hw:
                 hw(self, st, p, v, loc.ty, n)
             st.stores.append((r, p.off, sz, list(st.path()), n.get('line')))
+            if isinstance(v, (IntV, BoolV)):
+                # integer stores are remembered with their value (element
+                # facts of loops and post-conditions on index lists)
+                st.ghost[('storerec', len(st.stores))] = (
+                    r, p.off, sz, toint(v).t, list(st.path()))
             return
         raise Unsupported('write loc %r' % (loc,))
 
@@ -2110,6 +2119,13 @@ class Executor:
                     results.append(Outcome('fall', o.st))
                 else:
                     results.append(o)
+        # element facts: a loop that, in iteration c, loads (or stores) the
+        # element c of a buffer and falls through only when a condition P on
+        # it holds, establishes P for the elements [c0, c_exit) -- provided
+        # the body does not store into that buffer otherwise
+        efacts = []
+        if counter is not None and counter in start:
+            efacts = self.element_facts(st, start, counter, lows, results)
         # exit
         e = st.copy()
         havoc(e)
@@ -2145,6 +2161,17 @@ class Executor:
                     for sr in r.st.stores:
                         if sr not in e.stores:
                             e.stores.append(sr)
+            cvx = e.vars.get(counter) if counter is not None else None
+            if efacts and isinstance(cvx, IntV):
+                for (reg, base, sz_, kind_, pred) in efacts:
+                    fl = list(e.ghost.get(('elem_facts', reg.uid), ()))
+                    fl.append({'lo': lows[counter], 'hi': cvx.t, 'base': base,
+                               'sz': sz_, 'pred': pred, 'how': kind_,
+                               'nstores': sum(1 for s_ in e.stores
+                                              if s_[0] is reg),
+                               'iter_stores': 1 if kind_ == 'written' else 0
+                               })
+                    e.ghost[('elem_facts', reg.uid)] = tuple(fl)
             results.append(Outcome('fall', e))
         else:
             self.orphans = getattr(self, 'orphans', [])
@@ -2152,6 +2179,84 @@ class Executor:
                 if r.kind == 'dropped':
                     self.orphans.extend(r.st.obligs)
         return [r for r in results if r.kind != 'dropped']
+
+    def element_facts(self, st, start, counter, lows, results):
+        """-> [(region, base offset, element size, 'checked'|'written',
+        pred)] where pred(e) is what the loop body guarantees about element
+        number c (loaded and tested, or stored) whenever an iteration falls
+        through"""
+        from engine.smt import symbols
+        csym = start[counter]
+        if not z3.is_const(csym):
+            return []
+        cname = csym.decl().name()
+        outs = [r.st for r in results if r.kind == 'dropped']
+        if not outs:
+            return []
+        head_loads = set(k_ for k_ in st.ghost if isinstance(k_, tuple) and
+                         k_ and k_[0] == 'loadrec')
+        head_stores = len(st.stores)
+        npc = len(st.pc)
+        per_out = []
+        for o in outs:
+            facts = {}
+            new_stores = o.stores[head_stores:]
+            stored_regions = {}
+            for srec in new_stores:
+                stored_regions.setdefault(srec[0].uid, []).append(srec)
+            # loads of element c that the body tested
+            for k_, rec_ in list(o.ghost.items()):
+                if not (isinstance(k_, tuple) and k_ and k_[0] == 'loadrec')\
+                        or k_ in head_loads:
+                    continue
+                reg, off, sz, val = rec_
+                if reg.uid in stored_regions or not z3.is_const(val):
+                    continue
+                base = z3.simplify(off - csym * sz)
+                if cname in symbols(base):
+                    continue
+                vname = val.decl().name()
+                conj = [c_ for c_ in o.pc[npc:] if vname in symbols(c_)]
+                if not conj:
+                    continue
+                others = set()
+                for c_ in conj:
+                    others |= symbols(c_)
+                # only the element and loop-invariant symbols may occur
+                if any(n_.startswith('loop_') and n_ != vname
+                       for n_ in others) or cname in others:
+                    continue
+                body = z3.And(conj)
+                facts[('checked', reg.uid)] = (
+                    reg, base, sz, 'checked',
+                    (lambda e_, body=body, val=val: z3.substitute(
+                        body, (val, e_))))
+            # a store of element c
+            for k_, rec in list(o.ghost.items()):
+                if not (isinstance(k_, tuple) and k_ and k_[0] == 'storerec')\
+                        or k_[1] <= head_stores:
+                    continue
+                reg, off, sz, val, spc = rec
+                if len(stored_regions.get(reg.uid, [])) != 1:
+                    continue
+                base = z3.simplify(off - csym * sz)
+                if cname in symbols(base):
+                    continue
+                facts[('written', reg.uid)] = (
+                    reg, base, sz, 'written',
+                    (lambda e_, val=val, csym=csym: ('value', val, csym)))
+            per_out.append(facts)
+        if os.environ.get('VERIF_DEBUG_EFACTS'):
+            print('EFACTS', cname, [sorted(f_) for f_ in per_out],
+                  len(outs), head_stores, [len(o.stores) for o in outs])
+        common = set(per_out[0])
+        for f_ in per_out[1:]:
+            common &= set(f_)
+        # with several fall-through paths only facts present on all of them
+        # (and, for simplicity, only when there is one path) are kept
+        if len(per_out) != 1:
+            return []
+        return [per_out[0][k_] for k_ in sorted(common)]
 
     def upper_bound_of(self, cond, counter, st, assigned):
         """b when cond is `counter < b` with b not assigned in the loop"""
